@@ -26,7 +26,7 @@ CHECKS = {
 NOTES = {
  "C12": "trusts the panic hook / catch_unwind to observe every panic; aborts, stack overflows and hangs are observed as worker deaths / watchdog expiry",
  "C13": "the (history x write call x fault kind) space of the quick tier is enumerated completely; byte offsets completely for files up to 4 KiB",
- "C17": "the baton scheduler serialises at seams only; interleavings inside a library call (and data races / UB) are explored in the thorough tier by Miri over a small fixed family of programs (2..3 muxers; H.264 / H.265 / AV1 / VP9, AAC / Opus, metadata, one fragmented), 184 seeded interleavings per run over eight programs",
+ "C17": "the baton scheduler serialises at seams only; interleavings inside a library call (and data races / UB) are explored in the thorough tier by Miri over a small fixed family of programs (2..3 muxers; H.264 / H.265 / AV1 / VP9, AAC / Opus, metadata, one fragmented), 176 seeded interleavings per run over eight programs",
  "C20": "option product is ordinary seeded workload; only the environment-fault clause and the process/file boundary are simulation targets (DESIGN.md 4.C20)",
 }
 
